@@ -14,6 +14,7 @@ import mirfront, mirsym, models
 from mirsym import Interp
 
 NPROC = int(os.environ.get('VERIF_JOBS', '16'))
+HARD_GRACE = 90
 
 # ---------------------------------------------------------------- worker side
 _W = {}
@@ -24,7 +25,7 @@ def interp_for(profile, params=None):
     if I is None:
         bodies, allocs = mirfront.load(profile)
         p = {'profile': profile}
-        I = Interp(bodies, allocs, models.all_models(), params=p, src_root=mirfront.REPO)
+        I = Interp(bodies, allocs, models.all_models(), params=p, src_root=mirfront.REPO, expanded=mirfront.expanded())
         _W[key] = I
     if params: I.params.update(params)
     return I
@@ -160,6 +161,10 @@ def run_parallel(check, jobs, budget_per_task, deadline, report):
         while pending:
             done = [p for p in pending if p.ready()]
             if not done:
+                if deadline and time.time() > deadline + HARD_GRACE:
+                    # a worker is stuck inside the solver (z3 does not always honour its timeout): give up on it
+                    total['inconclusive'].append(f'hard deadline: {len(pending)} task(s) still running {HARD_GRACE}s after the time limit were abandoned')
+                    pool.terminate(); break
                 time.sleep(0.02); continue
             for p in done:
                 pending.remove(p)
